@@ -60,7 +60,7 @@ example : ∃ s : Sketch Unit, (run genTun ⟨fun _ => (), id, fun _ => 0⟩ [.n
 compaction range of even length ≥ 2 inside its buffer -/
 theorem req_compaction_range_ok {T : Tun} (hT : TunOK T) (F : SecFns ρ) (ops : List Op) (coins : List Bool) :
     (run T F ops coins).2.throws = false :=
-  (runOps_rel hT F ops ([] : Store ρ) [] { coins := coins } trivial).2
+  (runOps_rel hT F ops ([] : Store ρ) [] (Acc.init coins) trivial).2
 
 /-- weight_conserved, the full statement: iterating `begin() … end()` yields exactly `num_retained` pairs whose weights sum to n -/
 def req_weight_conserved_full : Prop :=
